@@ -184,6 +184,45 @@ def body():
     c.cov["tls_scenarios"] = done
     if done < len(scns):
         c.note("%d of %d TLS scenarios ran (a crashed process ends its chunk; the crash itself is reported)" % (done, len(scns)))
+    # ---- (4) a peer that HOLDS THE KEYS: the independent client / server of tools/roguepeer.py builds each handshake message honestly, applies an
+    # edit program to it (also to the messages that travel under the record protection) and carries on; the library endpoint must return
+    import roguepeer, concurrent.futures as cf
+    rexe = vlib.cc_driver("srvdrv", ["srvdrv.c", "vh.c"])
+    rcreds = tlslib.ensure_creds()
+    kinds_used = ("len+", "len-", "len=", "trunc", "drop", "dup", "rep", "empty", "grow", "fill", "swap")
+    eprogs = [p for p in progs1 if p[0][1] in kinds_used and p[0][0] in (0, 2, 4, 6, 8, 10, 11)]
+    rjobs = []
+    for proto, sp in ((257, "tlcp"), (771, "srv"), (772, "srv")):
+        for role, types in (("client", (1, 11, 16, 15, 20) if proto != 772 else (1, 11, 15, 20)), ("server", (2, 11, 12, 14, 20) if proto != 772 else (2, 8, 11, 15, 20))):
+            for t in types:
+                for p in eprogs:
+                    rjobs.append((proto, sp + "_d2", role, t, p))
+    if q:
+        rng.shuffle(rjobs)
+        rjobs = rjobs[:160]
+    rdone = 0
+    with cf.ProcessPoolExecutor(14) as ex:
+        futs = {}
+        for j in rjobs:
+            proto, cred, role, t, p = j
+            if role == "client":
+                futs[ex.submit(roguepeer.run, rcreds, rexe, proto, cred, "trust_root", "honest", "cli_d2", 30, (t, p))] = j
+            else:
+                futs[ex.submit(roguepeer.run_server, rcreds, rexe, proto, cred, "trust_root", "honest", 30, (t, p))] = j
+        for f in cf.as_completed(futs):
+            proto, cred, role, t, p = futs[f]
+            key = "c06:peer:p%d:rogue-%s:hs%d:%s" % (proto, role, t, "+".join("%d.%s.%s.%s" % (s_, k_, a_, "f" if f_ else "n") for s_, k_, a_, f_ in p))
+            c.count(1, key)
+            rdone += 1
+            try:
+                view, evs, san = f.result()
+            except Exception as exn:
+                c.violation(key, "the independent peer itself failed: %r" % exn, {})
+                continue
+            ended = any(e.get("e") == "End" for e in evs)
+            if san or not ended:
+                c.violation(key, "a library endpoint crashed, hung or tripped a sanitizer on an edited handshake message from a key-holding peer: %s" % str(san)[:500], {"peer_view": view, "events": evs, "report": str(san)[:3000]})
+    c.cov["keyholding_peer_handshakes"] = rdone
     c.sample({"seeds": ["%s/v%d (%d bytes)" % (t, v, len(s)) for t, v, s in seeds][:40]})
     return c.finish(
         rule="reader core: all strings over %s up to length %d + random longer ones; mutants: every single edit program of Mutate.tla on every seed object (tree and byte interpretation), all prefixes, "
